@@ -1,5 +1,5 @@
 """C01 — print -> parse identity (XML, JSON, LYB)."""
-from checks import textcomp, rtcomp, rtxcomp, lybcomp
+from checks import textcomp, rtcomp, rtxcomp, lybcomp, lybtree
 
 LEAN_TARGETS = ["LyModel.Props.C01", "LyModel.Props.C01Lyb"]
 AUDIT = "Audit/C01.lean"
@@ -14,6 +14,8 @@ def classify(component, what, case):
         return rtcomp.classify(component, what, case)
     if component == "rtx":
         return rtxcomp.classify(component, what, case)
+    if component == "lybtree":
+        return lybtree.classify(component, what, case)
     return lybcomp.classify(component, what, case)
 
 
@@ -22,3 +24,4 @@ def run(cx):
     rtcomp.run_rt(cx, laws=("roundtrip",))
     rtxcomp.run_rtx(cx, laws=("roundtrip",))
     lybcomp.run_lyb(cx)
+    lybtree.run_lybtree(cx)
